@@ -316,6 +316,9 @@ func (r *Run) invoke(g *Goroutine, fv *FuncV, args []Value, retTo func(Value)) {
 	r.eng.intrMu.RUnlock()
 	if !ok {
 		h = r.eng.intrinsics[fv.fn.String()]
+		if h == nil {
+			h = prefixIntrinsic(r.eng, fv.fn)
+		}
 		r.eng.intrMu.Lock()
 		r.eng.intrByFn[fv.fn] = h
 		r.eng.intrMu.Unlock()
@@ -623,6 +626,12 @@ func (r *Run) exec(g *Goroutine, fr *Frame, in ssa.Instruction) {
 	case *ssa.MakeInterface:
 		r.set(fr, x, IfaceV{t: x.X.Type(), v: r.get(fr, x.X)})
 	case *ssa.MakeMap:
+		if x.Reserve != nil {
+			if rv, ok := r.get(fr, x.Reserve).(*Term); ok {
+				_, rs, _ := isIntType(x.Reserve.Type())
+				r.noteMake(r.ctx.Resize(rv, 64, rs))
+			}
+		}
 		r.nextMap++
 		r.set(fr, x, &MapV{id: r.nextMap, typ: x.Type().Underlying().(*types.Map)})
 	case *ssa.MakeSlice:
